@@ -71,25 +71,30 @@ func (e *Exec) toLowerByte(c *sym.Term) *sym.Term {
 
 // requireASCII restricts the claim: case mapping is modelled for 7-bit input only.
 func (e *Exec) requireASCII(s Str, what string) {
+	var conds []*sym.Term
 	for _, c := range s.B {
 		if c.IsConst() {
 			if c.Uint64() >= 0x80 {
-				if cs, ok := concreteString(s); ok {
-					_ = cs
-					panic(unsupported(what + " on concrete non-ASCII string"))
-				}
+				panic(unsupported(what + " on concrete non-ASCII string"))
 			}
 			continue
 		}
 		ok := e.tb.ULt(c, e.tb.Const(8, 0x80))
-		if e.pcSet[ok.ID] {
-			continue
+		if !e.pcSet[ok.ID] {
+			conds = append(conds, ok)
 		}
-		r, _ := e.check(e.tb.Not(ok))
-		if r != sym.Unsat {
-			e.rep.noteInconclusive("ascii/"+what, what+" reached with possibly non-ASCII symbolic input; non-ASCII values are outside the claim (assumed away)")
-			e.assume(ok)
-		}
+	}
+	if len(conds) == 0 {
+		return
+	}
+	all := e.tb.BAnd(conds...)
+	r, _ := e.check(e.tb.Not(all))
+	if r != sym.Unsat {
+		e.rep.Stubs["ASSUMED 7-bit ASCII input at "+what+" (case mapping / space trimming is modelled for ASCII only; non-ASCII text is outside the claim)"]++
+		e.assume(all)
+	}
+	for _, c := range conds {
+		e.addPC(c)
 	}
 }
 
@@ -828,5 +833,8 @@ func (e *Exec) zeroResult(fn *ssa.Function) Value {
 
 // opaqueMethod handles interface method calls on engine-defined opaque values.
 func (e *Exec) opaqueMethod(recv Iface, m *types.Func, args []Value) func() Value {
+	if o, ok := recv.V.(*opaqueObj); ok {
+		return func() Value { return e.opaqueCall(o, m.Name(), args) }
+	}
 	return nil
 }
